@@ -194,55 +194,48 @@ theorem implRead_out_closed (kd : Kind) (n k : Nat) (t : TState) :
       · simp only []; rw [h.2.2.2.2]; exact ⟨rfl, rfl⟩
       · simp only []; rw [h.2.2.2]; exact ⟨rfl, rfl⟩
 
-theorem finv_reader (s : LSt) (h : finv s) :
-    finv ((readerStep s).getD s) ∧ cprog ((readerStep s).getD s).c = cprog s.c := by
-  rcases s with ⟨r, c, l, cl, av⟩
-  rcases h with ⟨hr, hc, hd⟩
-  simp only at hr hc hd
-  rcases hr with hr | hr <;> subst hr
-  · by_cases hx : (cl || av) = true
-    · simp [readerStep, hx, finv]; exact ⟨hc, hd⟩
-    · simp [readerStep, hx, finv]; exact ⟨hc, hd⟩
-  · simp [readerStep, finv]; exact ⟨hc, hd⟩
+theorem finv_move (s : LSt) (p : Who) (h : finv s) :
+    finv (move true s p) ∧
+      cprog (move true s p).c = (if p = .closer then min 2 (cprog s.c + 1) else cprog s.c) ∧
+      (rIn s → rIn (move true s p)) ∧ (wIn s → wIn (move true s p)) ∧
+      (s.r = .done → (move true s p).r = .done) ∧ (s.w = .done → (move true s p).w = .done) := by
+  rcases s with ⟨r, w, c, l, cl, av, dr⟩
+  rcases h with ⟨hc, hd⟩
+  simp only at hc hd
+  cases p with
+  | reader =>
+    cases r <;> simp [move, readerStep, finv, rIn, wIn] <;> (try split) <;>
+      simp_all [finv, rIn, wIn]
+  | writer =>
+    cases w <;> simp [move, writerStep, finv, rIn, wIn] <;> (try split) <;>
+      simp_all [finv, rIn, wIn]
+  | closer =>
+    cases c <;> simp_all [move, closerStep, finv, rIn, wIn, cprog]
 
-theorem finv_closer (s : LSt) (h : finv s) :
-    finv ((closerStep true s).getD s) ∧
-      cprog ((closerStep true s).getD s).c = min 2 (cprog s.c + 1) ∧
-      ((closerStep true s).getD s).r = s.r := by
-  rcases s with ⟨r, c, l, cl, av⟩
-  rcases h with ⟨hr, hc, hd⟩
-  simp only at hr hc hd
-  cases c
-  · simp [closerStep, finv, cprog]; exact hr
-  · exact absurd rfl hc
-  · simp [closerStep, finv, cprog]; exact hr
-  · simp [closerStep, finv, cprog]; exact ⟨hr, hd rfl⟩
-
-theorem force_sched (s : LSt) (h : finv s) (sched : List Bool) :
+theorem force_sched (s : LSt) (h : finv s) (sched : List Who) :
     finv (runSched true s sched) ∧
       cprog (runSched true s sched).c = min 2 (cprog s.c + nCloser sched) ∧
-      (s.r = .done → (runSched true s sched).r = .done) := by
+      (rIn s → rIn (runSched true s sched)) ∧ (wIn s → wIn (runSched true s sched)) ∧
+      (s.r = .done → (runSched true s sched).r = .done) ∧
+      (s.w = .done → (runSched true s sched).w = .done) := by
   induction sched generalizing s with
-  | nil => simp [runSched, nCloser, h]; cases s.c <;> simp [cprog]
-  | cons b rest ih =>
-    cases b with
-    | true =>
-      have hr := finv_reader s h
-      have := ih _ hr.1
-      simp only [runSched, nCloser]
-      refine ⟨this.1, by rw [this.2.1, hr.2], ?_⟩
-      intro hd
-      apply this.2.2
-      rcases s with ⟨r, c, l, cl, av⟩
-      simp only at hd; subst hd
-      simp [readerStep]
-    | false =>
-      have hc := finv_closer s h
-      have := ih _ hc.1
-      simp only [runSched, nCloser]
-      refine ⟨this.1, ?_, ?_⟩
-      · rw [this.2.1, hc.2.1]; omega
-      · intro hd; apply this.2.2; rw [hc.2.2]; exact hd
+  | nil =>
+    refine ⟨h, ?_, id, id, id, id⟩
+    simp only [runSched, nCloser]
+    cases s.c <;> simp [cprog]
+  | cons p rest ih =>
+    have hm := finv_move s p h
+    have := ih _ hm.1
+    simp only [runSched]
+    refine ⟨this.1, ?_, fun x => this.2.2.1 (hm.2.2.1 x), fun x => this.2.2.2.1 (hm.2.2.2.1 x),
+      fun x => this.2.2.2.2.1 (hm.2.2.2.2.1 x), fun x => this.2.2.2.2.2 (hm.2.2.2.2.2 x)⟩
+    rw [this.2.1, hm.2.1]
+    cases p <;> simp [nCloser] <;> omega
 
+theorem runSched_append (force : Bool) (s : LSt) (a b : List Who) :
+    runSched force s (a ++ b) = runSched force (runSched force s a) b := by
+  induction a generalizing s with
+  | nil => rfl
+  | cons x xs ih => simp [runSched, ih]
 
 end Scrapli.Pipe
